@@ -19,6 +19,7 @@ type Config struct {
 	Cache bool `json:"cache"`
 	Alias bool `json:"alias,omitempty"` // storage hands out engine-owned slices
 	Lazy  bool `json:"lazy,omitempty"`  // cursor snapshot taken at first Seek/Next
+	Bind  bool `json:"bind,omitempty"`  // bind the query text to returned errors before rendering them (README usage)
 }
 
 type Stmt struct {
@@ -26,6 +27,9 @@ type Stmt struct {
 	Mode  string   `json:"mode"`            // "row" or "batch": how the plan is drained
 	Extra []string `json:"extra,omitempty"` // polls issued after the drain completed: "next"/"batch"
 	Note  string   `json:"note,omitempty"`
+	// PollAfterErr: issue the Extra polls even when the drain ended with an error
+	// (used only where a property speaks about polls after a failed write).
+	PollAfterErr bool `json:"poll_after_err,omitempty"`
 }
 
 type Client struct {
@@ -144,6 +148,9 @@ func execStmt(h *Handle, idx int, st Stmt, cfg Config) (res StmtRes) {
 		var err error
 		plan, err = opt.BuildPlan(h)
 		if err != nil {
+			if qb, ok := err.(kvql.QueryBinder); ok && cfg.Bind {
+				qb.BindQuery(st.Text)
+			}
 			res.BuildErr = errText(err)
 			res.ErrObj = err
 			plan = nil
@@ -186,6 +193,9 @@ func execStmt(h *Handle, idx int, st Stmt, cfg Config) (res StmtRes) {
 		if kind == "next" {
 			row, err := plan.Next(ctx)
 			if err != nil {
+				if qb, ok := err.(kvql.QueryBinder); ok && cfg.Bind {
+					qb.BindQuery(st.Text)
+				}
 				pr.Err = errText(err)
 				if res.ErrObj == nil {
 					res.ErrObj = err
@@ -204,6 +214,9 @@ func execStmt(h *Handle, idx int, st Stmt, cfg Config) (res StmtRes) {
 		}
 		rows, err := plan.Batch(ctx)
 		if err != nil {
+			if qb, ok := err.(kvql.QueryBinder); ok && cfg.Bind {
+				qb.BindQuery(st.Text)
+			}
 			pr.Err = errText(err)
 			if res.ErrObj == nil {
 				res.ErrObj = err
@@ -247,10 +260,13 @@ func execStmt(h *Handle, idx int, st Stmt, cfg Config) (res StmtRes) {
 		}
 	}
 	res.NDrain = len(res.Polls)
-	if res.Err != "" || res.Panic != "" || res.StepCap {
+	if res.Panic != "" || res.StepCap {
 		return
 	}
-	res.Completed = true
+	if res.Err != "" && !st.PollAfterErr {
+		return
+	}
+	res.Completed = res.Err == ""
 	for _, k := range st.Extra {
 		pr, _ := poll(k)
 		res.Polls = append(res.Polls, pr)
